@@ -76,6 +76,7 @@ def run(ctx):
             L.append("namespace t%d { using R = %s; inline void f(Quantity<Meters, R> a, Quantity<Meters, R> b, R x, R y) {" % (k, R))
             L.append('  static_assert(std::is_same<std::remove_reference_t<decltype(%s)>, Quantity<Meters, %s>>::value, "tt %d %s %s spec-type");' % (OPS_CPP[row["op"]], RR, k, row["op"], row["R"]))
             L.append('  static_assert(std::is_same<typename std::remove_reference_t<decltype(%s)>::Rep, std::remove_reference_t<decltype(%s)>>::value, "tt %d %s %s raw-type");' % (OPS_CPP[row["op"]], RAW_CPP[row["op"]], k, row["op"], row["R"]))
+            L.append('  static_assert(std::is_lvalue_reference<decltype(%s)>::value == std::is_lvalue_reference<decltype(%s)>::value, "tt %d %s %s value-category");' % (OPS_CPP[row["op"]], RAW_CPP[row["op"]], k, row["op"], row["R"]))
             L.append("  (void)a; (void)b; (void)x; (void)y; } }")
         return "\n".join(L) + "\nint main() {}\n"
     import re
